@@ -80,7 +80,7 @@ def replay_behaviours(t, wd):
         yield {"fam": "loader", "src": "behaviour", "variant": variant, "graph": graph, "prog": prog, "prefix": [], "preemptions": -1,
                "results": r["results"], "errs": errs, "deadlock": r["deadlock"], "cached": r["cached"],
                "cache": cache, "cache_before": r["cache_before"], "cache_after": r["cache_after"],
-               "fetchok": {x: sched.fetchable(graph, x) for x in names}, "reach": {x: sched.reach(graph, x) for x in names},
+               "fetchok": {x: sched.fetchable(graph, x) or x in r.get("appeared", []) for x in names}, "reach": {x: sched.reach(graph, x) for x in names},
                "expected": {x: sched.expected_sig(graph, x) for x in names},
                "steps": r["steps"], "trace_checked": False, "trace_accepted": True,
                "model_log": b["hist"], "real_log": [{"tid": a, "k": k, "u": u, "t": th} for a, k, u, th in r["log"]],
@@ -115,7 +115,7 @@ def replay(t):
         rec = {"fam": "loader", "src": "model", "variant": variant, "graph": graph, "prog": prog, "prefix": r["prefix"], "preemptions": r["preemptions"],
                "results": r["results"], "errs": errs, "deadlock": r["deadlock"], "cached": r["cached"],
                "cache": cache, "cache_before": r["cache_before"], "cache_after": r["cache_after"],
-               "fetchok": {x: sched.fetchable(graph, x) for x in names}, "reach": {x: sched.reach(graph, x) for x in names},
+               "fetchok": {x: sched.fetchable(graph, x) or x in r.get("appeared", []) for x in names}, "reach": {x: sched.reach(graph, x) for x in names},
                "expected": {x: sched.expected_sig(graph, x) for x in names},
                "steps": r["steps"], "trace_checked": False, "trace_accepted": True}
         if n % t["sample"] == 0:
